@@ -452,6 +452,14 @@ def check(an: Analysis) -> None:
     if not compared:
         ob.fail(eq, None, "equality never compares attribute values")
 
+    # ------------------------------------------------------------------ C04.9 everything stored went through the converting validator
+    # (the immutable conversion lives in the validators: a stored value that bypasses them - a default
+    # returned as it is - keeps the caller's / class body's mutable container)
+    from ..engine import borrow
+    from . import c05
+
+    borrow(an, c05.check, {"C05.1": "C04.9"})
+
 
 def thorough(an: Analysis, repo: str) -> dict:
     """E6: pyright compile-fail witness for the type-level encoding (with a passing twin)."""
